@@ -367,7 +367,7 @@ ExtendIter ==
     /\ Running /\ On("extend")
     /\ \E c \in LiveSlots, m \in 0..2, h \in 0..2 :
         LET C == cs[c]  n == Len(C.v)  f == Fresh(m) IN
-        /\ C.k \in Growable /\ (C.k = "F" => CapKnown(C)) /\ FreshOk(m) /\ Room(C, m) /\ h <= m
+        /\ C.k \in Growable /\ (C.k = "F" => CapKnown(C)) /\ FreshOk(m) /\ Room(C, m)      \* h # m: a lying size_hint
         \* the iterator's next() is called m+1 times in a normal run (the last call returns None)
         /\ \E p \in NoInj \cup (IF Full(C, h) THEN {} ELSE Inj("next", IF Full(C, m) THEN C.cap - n + 1 ELSE m + 1)) :
             LET st == [op |-> "extend", c |-> c, i |-> h, xs |-> f, pk |-> p[1], pn |-> p[2]] @@ S0
@@ -378,9 +378,9 @@ ExtendIter ==
                            cr |-> Range(Take(f, p[2] - 1)), nf |-> m] @@ E0
                      ELSE IF Full(C, m)
                      THEN \* the push of element fit+1 fails: it was created by the iterator and is dropped
-                          [out |-> "panic", cs |-> Put(c, Grown(C, C.v \o Take(f, fit))), dr |-> <<f[fit + 1]>>,
+                          [out |-> "panic", cs |-> Put(c, GrownTo(C, C.v \o Take(f, fit), n + Max(h, fit))), dr |-> <<f[fit + 1]>>,
                            cr |-> Range(Take(f, fit + 1)), nf |-> m] @@ E0
-                     ELSE [cs |-> Put(c, Grown(C, C.v \o f)), cr |-> Range(f), nf |-> m] @@ E0
+                     ELSE [cs |-> Put(c, GrownTo(C, C.v \o f, n + Max(h, m))), cr |-> Range(f), nf |-> m] @@ E0
             IN Commit(st, e)
 
 (* append(owned slice): the source (built by the caller from fresh ids) is emptied; sk = source kind *)
@@ -637,11 +637,13 @@ Leak ==
 (* a further container in a free slot: kind B / F / V (in the shared bump) *)
 NewCont ==
     /\ Running /\ On("new") /\ FreeSlots # {}
-    /\ \E k \in {"B", "F", "V"}, m \in 0..2, sp \in 0..1 :
+    \* j = how it is built: 0 with_capacity + push, 1 from_iter_in, 2 from_iter_exact_in, 3 from_owned_slice_in
+    /\ \E k \in {"B", "F", "V"}, m \in 0..2, sp \in 0..1, way \in 0..3 :
         LET f == Fresh(m)  d == LowFree IN
-        /\ FreshOk(m) /\ (k = "B" => sp = 0)
-        /\ Commit([op |-> "new", d |-> d, s |-> k, i |-> m + sp, xs |-> f] @@ S0,
-                  [cs |-> Put(d, [k |-> k, v |-> f, cap |-> NewCap(k, m + sp), pr |-> IF k = "B" THEN 0 ELSE m + sp,
+        /\ FreshOk(m) /\ (k = "B" => sp = 0 /\ way = 0) /\ (way > 0 => sp = 0) /\ (k = "F" => way < 3)
+        /\ Commit([op |-> "new", d |-> d, s |-> k, i |-> m + sp, j |-> way, xs |-> f] @@ S0,
+                  [cs |-> Put(d, [k |-> k, v |-> f, cap |-> IF k = "F" /\ way = 1 /\ ~Zst THEN -1 ELSE NewCap(k, m + sp),
+                                  pr |-> IF k = "B" THEN 0 ELSE m + sp,
                                   gen |-> 0, blk |-> IF m = 0 THEN 0 ELSE nblk, off |-> 0]),
                    cr |-> Range(f), nf |-> m, nb |-> 1, inv |-> {d}] @@ E0)
 
